@@ -626,6 +626,93 @@ Section Sim.
       + cbn [rbind fst snd]. eexists _, _. split; [reflexivity|]. cbn [p_out p_store]. repeat split; auto. discriminate.
   Qed.
 
+  (* every dump of a run carries the denoted value of the cell / output it writes *)
+  Definition dump_den (a : action) : Prop :=
+    match a with
+    | ACall _ _ _ => True
+    | ADump o i v =>
+        exists f j kw ms sh mask arrs,
+          In f p /\ is_mapped f = true /\ func_kwargs f (d_env D) = Ok kw /\ fspec f = Some ms
+          /\ shape_of c f = Ok (sh, mask) /\ denote_mapped body f ms kw sh mask = Ok arrs
+          /\ nth_error (fouts f) j = Some o /\ i < prod (ext_of mask sh)
+          /\ v = nth j (outs_lin body f ms kw sh mask i) dflt
+    | ADumpSingle o v => v = dval o /\ exists f, In f p /\ is_mapped f = false /\ In o (fouts f)
+    end.
+
+  Definition task_trace_ok (t : task) : Prop :=
+    forall ps0 ps1, process_task ps0 t = ROk ps1 -> exists trt, p_tr ps1 = p_tr ps0 ++ trt /\ Forall dump_den trt.
+
+  Lemma load_single_some rs f l : load_single rs f = Ok (Some l) ->
+    Forall2 (fun o v => dict_get (st_val rs) o = Some (Ok v)) (fouts f) l.
+  Proof.
+    unfold load_single. destruct (mapM _ (fouts f)) as [lo|] eqn:E; cbn [bind]; [|discriminate].
+    destruct (forallb _ lo) eqn:Ea; [|discriminate]. intros H. injection H as <-.
+    revert lo E Ea. induction (fouts f) as [|o os IH]; intros lo E Ea; cbn in E.
+    - injection E as <-. constructor.
+    - destruct (dict_get (st_val rs) o) as [[v|e]|] eqn:Eg; cbn in E; try discriminate.
+      + destruct (mapM _ os) as [lo'|] eqn:E2; cbn in E; [|discriminate]. injection E as <-. cbn in Ea |- *.
+        constructor; [exact Eg | now apply IH].
+      + destruct (mapM _ os) as [lo'|] eqn:E2; cbn in E; [|discriminate]. injection E as <-. cbn in Ea. discriminate.
+  Qed.
+
+  Lemma submit_func_trace ps f ps' t :
+    In f p -> fsub (p_store ps) f ->
+    (forall q g, In q (fparams f) -> producer p q = Some g -> ffull (p_store ps) g) ->
+    submit_func body c None ps f = ROk (ps', t) ->
+    (exists trf, p_tr ps' = p_tr ps ++ trf /\ Forall dump_den trf) /\ task_trace_ok t.
+  Proof.
+    intros Hin Hsubf Hprod H. unfold submit_func in H.
+    rewrite (kwargs_sel_den (p_store ps) f Hin Hprod) in H.
+    destruct (is_mapped f) eqn:Em.
+    - destruct (mapped_data f Hin Em) as [kw [ms [sh [mask [arrs [K1 [K2 [K3 [K4 [K5 [P1 [P2 [P3 [W1 [W2 [W3 [W4 Hent]]]]]]]]]]]]]]]]].
+      rewrite K1 in H. cbn [lift rbind] in H. rewrite K2, K3 in H. cbn [lift rbind fst snd] in H.
+      set (N := prod (ext_of mask sh)) in *.
+      destruct (submit_mapped _ _ _ _ _ _ _ _ _) as [[st ex]|] eqn:Esub; cbn [rbind fst snd] in H; [|discriminate].
+      injection H as <- <-. cbn [p_tr]. split.
+      + apply submit_mapped_exact in Esub as [fm [_ [_ [_ [_ [Htr _]]]]]]; [|unfold stores_of; now rewrite map_length].
+        eexists. split; [exact Htr|]. apply Forall_forall. intros a Ha. apply in_flat_map in Ha as [i [Hi Ha]].
+        apply filter_In in Hi as [Hi _]. apply in_seq in Hi.
+        unfold elem_trace in Ha. destruct Ha as [<-|Ha]; [exact I|].
+        apply in_map_iff in Ha as [[o v] [<- Hov]]. cbn [fst snd dump_den].
+        apply In_nth_error in Hov as [j Hj].
+        assert (Hjo : nth_error (fouts f) j = Some o /\ nth_error (MapResumeFacts.outs_at body f ms kw sh mask i) j = Some v).
+        { clear - Hj. revert j Hj. generalize (MapResumeFacts.outs_at body f ms kw sh mask i) as l2. generalize (fouts f) as l1.
+          induction l1 as [|a l1 IH]; intros [|b l2] [|j] Hj; cbn in *; try discriminate.
+          - injection Hj as <- <-. auto.
+          - now apply IH. }
+        destruct Hjo as [J1 J2].
+        exists f, j, kw, ms, sh, mask, arrs. repeat split; auto; [fold N; lia|].
+        rewrite <- (outs_at_lin body Harity f ms kw sh mask W1 W2 W3 W4 P2 P3 P1 arrs K4 i) by (fold N; lia).
+        symmetry. now apply nth_error_some_nth.
+      + intros ps0 ps1 Hp. cbn [process_task] in Hp.
+        destruct (process_mapped f sh mask _ ex) as [ar|]; cbn [rbind] in Hp; [|discriminate]. injection Hp as <-.
+        exists []. cbn [p_tr]. rewrite app_nil_r. auto.
+    - destruct (single_data f Hin Em) as [kw [outs [S1 [S2 [S3 [S4 S5]]]]]].
+      rewrite S1 in H. cbn [lift rbind] in H. unfold execute_single in H.
+      assert (Hsingle : forall outs', Forall2 (fun o v => v = dval o) (fouts f) outs' ->
+                 task_trace_ok (TSingle f outs')).
+      { intros outs' HF ps0 ps1 Hp. cbn [process_task] in Hp. injection Hp as <-. cbn [p_tr dump_single fst snd].
+        eexists. split; [reflexivity|]. apply Forall_forall. intros a Ha. apply in_map_iff in Ha as [[o v] [<- Hov]].
+        cbn [fst snd dump_den].
+        assert (G : In o (fouts f) /\ v = dval o).
+        { clear - HF Hov. induction HF as [|a b l l' H1 _ IH]; cbn in Hov; [destruct Hov|].
+          destruct Hov as [Hov|Hov]; [injection Hov as <- <-; split; [left; reflexivity | exact H1]|].
+          destruct (IH Hov) as [A B]. split; [right; exact A | exact B]. }
+        destruct G as [G1 G2]. split; [exact G2|]. exists f. auto. }
+      assert (Houts : Forall2 (fun o v => v = dval o) (fouts f) outs).
+      { rewrite S4. clear. induction (fouts f); cbn; constructor; auto. }
+      destruct (load_single (p_store ps) f) as [[l|]|] eqn:El; cbn [lift rbind] in H; [| |discriminate].
+      + cbn [rbind fst snd] in H. injection H as <- <-. cbn [p_tr]. split; [exists []; rewrite app_nil_r; auto|].
+        apply Hsingle.
+        pose proof (load_single_some _ _ _ El) as HL. unfold fsub in Hsubf. rewrite Em in Hsubf.
+        clear - HL Hsubf. induction HL as [|o v os vs H1 _ IH]; constructor.
+        * destruct (Hsubf o (or_introl eq_refl)) as [Hn|Hs]; rewrite H1 in *; [discriminate | now injection Hs].
+        * apply IH. intros o' Ho'. apply Hsubf. right. exact Ho'.
+      + rewrite S2 in H. cbn [lift rbind] in H. rewrite S3, Nat.eqb_refl in H. cbn [negb rbind fst snd] in H.
+        injection H as <- <-. cbn [p_tr]. split; [|now apply Hsingle].
+        eexists. split; [reflexivity|]. constructor; [exact I | constructor].
+  Qed.
+
   (* fsub / ffull look only at the entries of the function's own outputs *)
   Lemma f_ext r r' g :
     (forall o, In o (fouts g) -> dict_get (st_arr r) o = dict_get (st_arr r') o /\ dict_get (st_val r) o = dict_get (st_val r') o) ->
@@ -712,6 +799,14 @@ Section Sim.
         * now apply (proj2 (f_ext r _ g (Hoth g Hg Es))).
   Qed.
 
+  Definition tr_ext (tr0 tr1 : list action) : Prop := exists tr, tr1 = tr0 ++ tr /\ Forall dump_den tr.
+  Lemma tr_ext_refl tr : tr_ext tr tr.
+  Proof. exists []. rewrite app_nil_r. auto. Qed.
+  Lemma tr_ext_trans a b c0 : tr_ext a b -> tr_ext b c0 -> tr_ext a c0.
+  Proof.
+    intros [t1 [-> F1]] [t2 [-> F2]]. exists (t1 ++ t2). split; [now rewrite app_assoc | now apply Forall_app].
+  Qed.
+
   (* all functions of a generation are submitted *)
   Lemma submit_fold_sim gen : forall ps tasks,
     (forall f, In f gen -> In f p) ->
@@ -723,45 +818,53 @@ Section Sim.
       /\ p_out ps' = p_out ps /\ Forall2 task_good new gen
       /\ (forall g, In g p -> fsub (p_store ps') g)
       /\ (forall g, In g p -> ffull (p_store ps) g -> ffull (p_store ps') g)
-      /\ (forall f, In f gen -> is_mapped f = true -> ffull (p_store ps') f).
+      /\ (forall f, In f gen -> is_mapped f = true -> ffull (p_store ps') f)
+      /\ tr_ext (p_tr ps) (p_tr ps') /\ Forall task_trace_ok new.
   Proof.
     induction gen as [|f gen IH]; intros ps tasks Hgen Hsub Hprod.
-    - exists ps, []. rewrite app_nil_r. cbn. repeat split; auto. intros f [].
-    - destruct (submit_func_sim ps f (Hgen f (or_introl eq_refl)) Hsub (fun q g Hq Hp => Hprod f q g (or_introl eq_refl) Hq Hp))
+    - exists ps, []. rewrite app_nil_r. cbn. repeat split; auto; [intros f [] | apply tr_ext_refl].
+    - pose proof (Hgen f (or_introl eq_refl)) as Hf.
+      destruct (submit_func_sim ps f Hf Hsub (fun q g Hq Hp => Hprod f q g (or_introl eq_refl) Hq Hp))
         as [ps1 [t [E1 [E2 [E3 [E4 [E5 [E6 E7]]]]]]]].
-      destruct (submit_effect (p_store ps) (p_store ps1) f (Hgen f (or_introl eq_refl)) E3 E4 E5 E6 Hsub) as [S1 S2].
-      destruct (IH ps1 (tasks ++ [t])) as [ps' [new [F1 [F2 [F3 [F4 [F5 F6]]]]]]].
+      destruct (submit_func_trace ps f ps1 t Hf (Hsub f Hf) (fun q g Hq Hp => Hprod f q g (or_introl eq_refl) Hq Hp) E1) as [T1 T2].
+      destruct (submit_effect (p_store ps) (p_store ps1) f Hf E3 E4 E5 E6 Hsub) as [S1 S2].
+      destruct (IH ps1 (tasks ++ [t])) as [ps' [new [F1 [F2 [F3 [F4 [F5 [F6 [F7 F8]]]]]]]]].
       + intros g Hg. apply Hgen. right. exact Hg.
       + exact S1.
       + intros g q h Hg Hq Hp. destruct (producer_Some _ _ _ Hp) as [Hh _]. apply S2; [exact Hh|]. eapply Hprod; eauto. right. exact Hg.
       + exists ps', (t :: new). cbn [fold_left rbind fst snd]. rewrite E1. cbn [rbind fst snd].
         rewrite <- app_assoc in F1. cbn [app] in F1. split; [exact F1|]. split; [congruence|].
-        split; [constructor; assumption|]. split; [exact F4|]. split.
+        split; [constructor; assumption|]. split; [exact F4|]. split; [|split; [|split]].
         * intros g Hg Hfull. apply F5; [exact Hg|]. now apply S2.
-        * intros g [<-|Hg] Hm; [|now apply F6]. apply F5; [apply Hgen; left; reflexivity|]. now apply E5.
+        * intros g [<-|Hg] Hm; [|now apply F6]. apply F5; [exact Hf|]. now apply E5.
+        * eapply tr_ext_trans; [exact T1 | exact F7].
+        * constructor; assumption.
   Qed.
 
   (* ... and their tasks processed *)
   Lemma process_fold_sim tasks : forall gen ps,
-    Forall2 task_good tasks gen -> (forall f, In f gen -> In f p) ->
+    Forall2 task_good tasks gen -> Forall task_trace_ok tasks -> (forall f, In f gen -> In f p) ->
     (forall g, In g p -> fsub (p_store ps) g) ->
     exists ps', fold_left (fun acc t => rdo ps0 <- acc; process_task ps0 t) tasks (ROk ps) = ROk ps'
       /\ p_out ps' = p_out ps ++ flat_map den_entries gen
       /\ (forall g, In g p -> fsub (p_store ps') g)
       /\ (forall g, In g p -> ffull (p_store ps) g -> ffull (p_store ps') g)
-      /\ (forall f, In f gen -> is_mapped f = false -> ffull (p_store ps') f).
+      /\ (forall f, In f gen -> is_mapped f = false -> ffull (p_store ps') f)
+      /\ tr_ext (p_tr ps) (p_tr ps').
   Proof.
-    induction tasks as [|t tasks IH]; intros gen ps HF Hgen Hsub; inversion HF as [|? f ? gen' Hg1 Hg2]; subst.
-    - exists ps. cbn. rewrite app_nil_r. repeat split; auto. intros f [].
-    - destruct (Hg1 ps) as [ps1 [E1 [E2 E3]]].
+    induction tasks as [|t tasks IH]; intros gen ps HF HT Hgen Hsub; inversion HF as [|? f ? gen' Hg1 Hg2]; subst.
+    - exists ps. cbn. rewrite app_nil_r. repeat split; auto; [intros f [] | apply tr_ext_refl].
+    - inversion HT as [|? ? Ht1 Ht2]; subst.
+      destruct (Hg1 ps) as [ps1 [E1 [E2 E3]]].
       destruct (process_effect (p_store ps) f (Hgen f (or_introl eq_refl)) Hsub) as [S1 [S2 S3]].
       rewrite <- E3 in S1, S2, S3.
-      destruct (IH gen' ps1 Hg2 (fun g Hg => Hgen g (or_intror Hg)) S1) as [ps' [F1 [F2 [F3 [F4 F5]]]]].
+      destruct (IH gen' ps1 Hg2 Ht2 (fun g Hg => Hgen g (or_intror Hg)) S1) as [ps' [F1 [F2 [F3 [F4 [F5 F6]]]]]].
       exists ps'. cbn [fold_left rbind]. rewrite E1. split; [exact F1|]. split.
       + rewrite F2, E2. cbn [flat_map]. now rewrite app_assoc.
-      + split; [exact F3|]. split.
+      + split; [exact F3|]. split; [|split].
         * intros g Hg Hfull. apply F4; [exact Hg|]. now apply S2.
         * intros g [<-|Hg] Hm; [|now apply F5]. apply F4; [apply Hgen; left; reflexivity|]. now apply S3.
+        * eapply tr_ext_trans; [exact (Ht1 ps ps1 E1) | exact F6].
   Qed.
 
   Lemma run_generation_sim ps gen :
@@ -772,16 +875,18 @@ Section Sim.
       /\ p_out ps' = p_out ps ++ flat_map den_entries gen
       /\ (forall g, In g p -> fsub (p_store ps') g)
       /\ (forall g, In g p -> ffull (p_store ps) g -> ffull (p_store ps') g)
-      /\ (forall f, In f gen -> ffull (p_store ps') f).
+      /\ (forall f, In f gen -> ffull (p_store ps') f)
+      /\ tr_ext (p_tr ps) (p_tr ps').
   Proof.
     intros Hgen Hsub Hprod. unfold run_generation.
-    destruct (submit_fold_sim gen ps [] Hgen Hsub Hprod) as [ps1 [new [F1 [F2 [F3 [F4 [F5 F6]]]]]]].
+    destruct (submit_fold_sim gen ps [] Hgen Hsub Hprod) as [ps1 [new [F1 [F2 [F3 [F4 [F5 [F6 [F7 F8]]]]]]]]].
     cbn [app] in F1. rewrite F1. cbn [rbind fst snd].
-    destruct (process_fold_sim new gen ps1 F3 Hgen F4) as [ps' [G1 [G2 [G3 [G4 G5]]]]].
-    exists ps'. split; [exact G1|]. split; [now rewrite G2, F2|]. split; [exact G3|]. split.
+    destruct (process_fold_sim new gen ps1 F3 F8 Hgen F4) as [ps' [G1 [G2 [G3 [G4 [G5 G6]]]]]].
+    exists ps'. split; [exact G1|]. split; [now rewrite G2, F2|]. split; [exact G3|]. split; [|split].
     - intros g Hg Hfull. apply G4; [exact Hg|]. now apply F5.
     - intros f Hf. destruct (is_mapped f) eqn:Em; [|now apply G5].
       apply G4; [now apply Hgen|]. now apply F6.
+    - eapply tr_ext_trans; eauto.
   Qed.
 
   (* producers of the parameters of a generation are in earlier generations *)
@@ -799,22 +904,24 @@ Section Sim.
     producers_before before gens ->
     exists ps', fold_left (fun acc gen => rdo ps0 <- acc; run_generation body c None ps0 gen) gens (ROk ps) = ROk ps'
       /\ p_out ps' = p_out ps ++ flat_map den_entries (concat gens)
-      /\ (forall g, In g (before ++ concat gens) -> ffull (p_store ps') g).
+      /\ (forall g, In g (before ++ concat gens) -> ffull (p_store ps') g)
+      /\ tr_ext (p_tr ps) (p_tr ps').
   Proof.
     induction gens as [|gen rest IH]; intros before ps Hin Hsub Hfull Hbp Hpb.
-    - exists ps. cbn. rewrite !app_nil_r. auto.
+    - exists ps. cbn. rewrite !app_nil_r. split; [reflexivity|]. split; [reflexivity|]. split; [exact Hfull | apply tr_ext_refl].
     - destruct Hpb as [P1 P2].
-      destruct (run_generation_sim ps gen (fun f Hf => Hin gen f (or_introl eq_refl) Hf) Hsub) as [ps1 [E1 [E2 [E3 [E4 E5]]]]].
+      destruct (run_generation_sim ps gen (fun f Hf => Hin gen f (or_introl eq_refl) Hf) Hsub) as [ps1 [E1 [E2 [E3 [E4 [E5 E6]]]]]].
       { intros f q g Hf Hq Hp. apply Hfull. eapply P1; eauto. }
-      destruct (IH (before ++ gen) ps1) as [ps' [F1 [F2 F3]]].
+      destruct (IH (before ++ gen) ps1) as [ps' [F1 [F2 [F3 F4]]]].
       + intros g f Hg Hf. apply (Hin g f (or_intror Hg) Hf).
       + exact E3.
       + intros g Hg. apply in_app_or in Hg as [Hg|Hg]; [apply E4; [now apply Hbp | now apply Hfull] | now apply E5].
       + intros g Hg. apply in_app_or in Hg as [Hg|Hg]; [now apply Hbp | apply (Hin gen g (or_introl eq_refl) Hg)].
       + exact P2.
-      + exists ps'. cbn [fold_left rbind concat]. rewrite E1. split; [exact F1|]. split.
+      + exists ps'. cbn [fold_left rbind concat]. rewrite E1. split; [exact F1|]. split; [|split].
         * rewrite F2, E2, flat_map_app, app_assoc. reflexivity.
         * intros g Hg. apply F3. now rewrite <- app_assoc.
+        * eapply tr_ext_trans; eauto.
   Qed.
 End Sim.
 
@@ -901,7 +1008,8 @@ Theorem run_from_substore_denotes body user p inputs D rs :
   (forall g, In g p -> fsub body p inputs D rs g) ->
   exists ps, map_run_sel body p inputs user None rs = ROk ps
     /\ (forall f, In f p -> ffull body p inputs D (p_store ps) f)
-    /\ (forall f o, In f p -> In o (fouts f) -> dict_get (p_out ps) o = dict_get (d_out D) o).
+    /\ (forall f o, In f p -> In o (fouts f) -> dict_get (p_out ps) o = dict_get (d_out D) o)
+    /\ Forall (dump_den body p inputs D) (p_tr ps).
 Proof.
   intros Harity Hreq Hden Htopo Hpb Hall Hsub.
   unfold request_ok in Hreq. apply andb_true_iff in Hreq as [Hreq _]. apply andb_true_iff in Hreq as [Hok Hnd].
@@ -918,13 +1026,14 @@ Proof.
   { intros q Hq. apply Henv. intros X. apply in_flat_map in X as [f [Hf X]]. exact (Hq f Hf X). }
   unfold map_run_sel. cbn [validate_fixed lift rbind]. unfold all_shapes. rewrite Hshapes. cbn [lift rbind].
   destruct (generations_sim body Harity p inputs D HD Hfok Huniq Hin_disj Henv' (generations p) []
-              {| p_store := rs; p_out := []; p_tr := [] |}) as [ps [E1 [E2 E3]]].
+              {| p_store := rs; p_out := []; p_tr := [] |}) as [ps [E1 [E2 [E3 [trx [E4 E5]]]]]].
   - intros gen f Hg Hf. eapply generations_In; eauto.
   - exact Hsub.
   - intros g [].
   - intros g [].
   - exact Hpb.
-  - exists ps. split; [exact E1|]. cbn [app p_out] in E2, E3. split; [intros f Hf; apply E3; now apply Hall|].
+  - exists ps. split; [exact E1|]. cbn [app p_out p_tr] in E2, E3, E4. split; [intros f Hf; apply E3; now apply Hall|].
+    split; [|now rewrite E4].
     intros f o Hf Ho. rewrite E2. rewrite (den_entries_get D (concat (generations p)) f o (Hall f Hf) Ho).
     apply In_nth_error in Ho as [j Hj].
     destruct (HD f Hf) as [kw [_ H]]. unfold dval. destruct (is_mapped f).
@@ -962,7 +1071,7 @@ Proof.
   intros Harity Hreq Hden Htopo Hpb Hall.
   destruct (map_run_denotes body Harity user p inputs D Hreq Hden) as [st [R1 [R2 R3]]].
   destruct (run_from_substore_denotes body user p inputs D empty_store Harity Hreq Hden Htopo Hpb Hall
-              (fun g _ => fsub_empty body p inputs D g)) as [ps [S1 [S2 S3]]].
+              (fun g _ => fsub_empty body p inputs D g)) as [ps [S1 [S2 [S3 _]]]].
   exists st, ps. auto 10.
 Qed.
 
@@ -1040,7 +1149,8 @@ Theorem full_run_on_substore_denotes body user p inputs D rs :
   (forall g, In g p -> fsub body p inputs D rs g) ->
   exists ps, map_run_sel body p inputs user None rs = ROk ps
     /\ (forall f, In f p -> ffull body p inputs D (p_store ps) f)
-    /\ (forall f o, In f p -> In o (fouts f) -> dict_get (p_out ps) o = dict_get (d_out D) o).
+    /\ (forall f o, In f p -> In o (fouts f) -> dict_get (p_out ps) o = dict_get (d_out D) o)
+    /\ Forall (dump_den body p inputs D) (p_tr ps).
 Proof.
   intros Ha Hr Hd Ho Hs.
   destruct (pipeline_order_ok_spec p (request_ok_nodup p inputs Hr) Ho) as [A [B C]].
@@ -1062,3 +1172,82 @@ Proof.
   destruct (pipeline_order_ok_spec p (request_ok_nodup p inputs Hr) Ho) as [A [B C]].
   exact (map_run_sel_empty_is_map_run body user p inputs D Ha Hr Hd A B C).
 Qed.
+
+(* ------------------------------------------------------------------ stores made of denoted dumps are sub-stores *)
+Section Replay.
+  Variable body : mfunc -> env -> result (list val).
+  Variable p : list mfunc.
+  Variable inputs : env.
+  Variable D : den_state.
+  Let c : ctx := {| x_p := p; x_inputs := inputs; x_shapes := d_shapes D |}.
+  Hypothesis Huniq : forall g f o, In g p -> In f p -> In o (fouts g) -> In o (fouts f) -> g = f.
+  Hypothesis Hnd : forall f, In f p -> NoDup (fouts f).
+  Variable size_of : str -> nat.
+  (* the size of the external index space of each mapped output *)
+  Hypothesis Hsize : forall f sh mask o, In f p -> is_mapped f = true -> shape_of c f = Ok (sh, mask) -> In o (fouts f) ->
+    size_of o = prod (ext_of mask sh).
+
+  (* the effect of one dump on a store (what FileArray.dump / _dump_single_output leave behind) *)
+  Definition apply_dump (r : rstore) (a : action) : rstore :=
+    match a with
+    | ACall _ _ _ => r
+    | ADump o i v => set_arr r o (upd (get_arr r o (size_of o)) i (Some (Ok v)))
+    | ADumpSingle o v => set_val r o v
+    end.
+
+  Lemma get_arr_set r o st o' n : get_arr (set_arr r o st) o' n = if str_eqb o' o then st else get_arr r o' n.
+  Proof.
+    unfold get_arr, set_arr. cbn [st_arr]. destruct (str_eqb o' o) eqn:E.
+    - apply str_eqb_eq in E. subst. now rewrite dict_get_set_same.
+    - rewrite dict_get_set_other; [reflexivity|]. intros ->. now rewrite str_eqb_refl in E.
+  Qed.
+
+  Lemma apply_dump_sub r a : dump_den body p inputs D a ->
+    (forall g, In g p -> fsub body p inputs D r g) -> forall g, In g p -> fsub body p inputs D (apply_dump r a) g.
+  Proof.
+    intros Ha Hsub g Hg. destruct a as [fn i kw0 | o i v | o v]; cbn [apply_dump dump_den] in *; [now apply Hsub | |].
+    - destruct Ha as [f [j [kw [ms [sh [mask [arrs [Hf [Hm [K1 [K2 [K3 [K4 [Hj [Hi ->]]]]]]]]]]]]]]].
+      pose proof (Hsize f sh mask o Hf Hm K3 (nth_error_In _ _ Hj)) as Hs. rewrite Hs.
+      set (N := prod (ext_of mask sh)) in *.
+      pose proof (Hsub g Hg) as Hgs. unfold fsub in *. destruct (is_mapped g) eqn:Emg.
+      + intros kw' ms' sh' mask' arrs' A1 A2 A3 A4. specialize (Hgs kw' ms' sh' mask' arrs' A1 A2 A3 A4).
+        destruct (in_dec (list_eq_dec ascii_dec) o (fouts g)) as [Hog|Hog].
+        * assert (g = f) by (eapply Huniq; eauto; eapply nth_error_In; eauto). subst g.
+          rewrite K1 in A1. injection A1 as <-. rewrite K2 in A2. injection A2 as <-.
+          rewrite K3 in A3. injection A3 as <- <-. fold c in Hgs. fold N in Hgs |- *.
+          destruct Hgs as [L C]. split; [unfold stores_of; now rewrite map_length|].
+          intros j' Hj'. destruct (nth_error (fouts f) j') as [o'|] eqn:Eo'; [|apply nth_error_None in Eo'; lia].
+          destruct (stores_of_nth (set_arr r o (upd (get_arr r o N) i (Some (Ok (nth j (outs_lin body f ms kw sh mask i) dflt))))) f N j' o' Eo') as [Hn _].
+          destruct (stores_of_nth r f N j' o' Eo') as [Hn0 _]. destruct (C j' Hj') as [C1 C2].
+          rewrite Hn, get_arr_set. destruct (str_eqb o' o) eqn:E.
+          -- apply str_eqb_eq in E. subst o'.
+             assert (j' = j).
+             { apply (proj1 (NoDup_nth_error (fouts f)) (Hnd f Hf)); [apply nth_error_Some; congruence | congruence]. }
+             subst j'. rewrite <- Hn0. split; [now rewrite upd_length|].
+             intros x Hx. destruct (Nat.eq_dec x i) as [->|Hne].
+             ++ right. rewrite nth_upd by (rewrite C1; exact Hx). now rewrite Nat.eqb_refl.
+             ++ rewrite nth_upd_other by exact Hne. now apply C2.
+          -- rewrite <- Hn0. split; [exact C1 | exact C2].
+        * rewrite (stores_of_ext (set_arr r o _) r g); [exact Hgs|]. intros o' Ho'. cbn [set_arr st_arr].
+          apply dict_get_set_other. intros ->. contradiction.
+      + intros o' Ho'. cbn [set_arr st_val]. now apply Hgs.
+    - destruct Ha as [-> [f [Hf [Hm Ho]]]].
+      pose proof (Hsub g Hg) as Hgs. unfold fsub in *. destruct (is_mapped g) eqn:Emg.
+      + intros kw' ms' sh' mask' arrs' A1 A2 A3 A4. rewrite (stores_of_ext (set_val r o (dval D o)) r g); [now apply (Hgs kw' ms' sh' mask' arrs')|].
+        intros o' _. reflexivity.
+      + intros o' Ho'. cbn [set_val st_val]. destruct (str_eqb o' o) eqn:E.
+        * apply str_eqb_eq in E. subst o'. right. apply dict_get_set_same.
+        * rewrite dict_get_set_other; [now apply Hgs|]. intros ->. now rewrite str_eqb_refl in E.
+  Qed.
+
+  (* any store obtained from the empty one by dumps that carry denoted values – e.g. any prefix, or any subset, of the
+     dumps of an uninterrupted run – is a sub-store of the denoted store *)
+  Theorem replay_sub tr : Forall (dump_den body p inputs D) tr ->
+    forall g, In g p -> fsub body p inputs D (fold_left apply_dump tr empty_store) g.
+  Proof.
+    intros H. assert (G : forall r, (forall g, In g p -> fsub body p inputs D r g) ->
+                forall g, In g p -> fsub body p inputs D (fold_left apply_dump tr r) g).
+    { induction H as [|a tr Ha _ IH]; intros r Hr; cbn [fold_left]; [exact Hr|]. apply IH. now apply apply_dump_sub. }
+    apply G. intros g _. apply fsub_empty.
+  Qed.
+End Replay.
